@@ -8,20 +8,20 @@ export GOFLAGS=-mod=mod GOPROXY=off
 git -C /repo worktree remove --force $WT 2>/dev/null
 git -C /repo worktree add -q --detach $WT HEAD || exit 3
 cd $WT
-demo=$(ls $D/seeded_*_test.go | head -1)
+demos=$(ls $D/seeded_*_test.go)
 {
 echo "== confirm $id at $(git -C /repo log --format=%h -1) =="
 git apply $D/patch.diff && echo "patch applies" || { echo "PATCH DOES NOT APPLY"; }
 go build ./... && go build -tags verif ./... && echo "builds: ok" || echo "BUILD FAILS"
-cp $demo .
-tn=$(grep -o 'func Test[A-Za-z0-9_]*' $(basename $demo) | head -1 | sed 's/func //')
+cp $demos .
+tn=$(cat $demos | grep -o 'func Test[A-Za-z0-9_]*' | head -1 | sed 's/func //')
 echo "-- demo with change (expect FAIL):"
 go test -vet=off -count=1 -run "^${tn}\$" . 2>&1 | tail -3
-rm $(basename $demo)
+for f in $demos; do rm $(basename $f); done
 echo "-- full existing suite with change (expect ok):"
 go test -vet=off -count=1 -timeout 25m ./... 2>&1 | tail -4
 git checkout -q -- .
-cp $demo .
+cp $demos .
 echo "-- demo without change (expect ok):"
 go test -vet=off -count=1 -run "^${tn}\$" . 2>&1 | tail -3
 } > $D/confirm.log 2>&1
